@@ -43,7 +43,7 @@ INVARIANTS = {
             ['C01_ApplyConsumes', 'C01_OnlyApplyChangesState']),
     'C02': (['C02_TsIsIntervalLength', 'C02_SumIsElapsed', 'C02_CompleteAfterForce'],
             ['C02_Contiguous']),
-    'C03': (['C03_NoOvershoot', 'C03_ReturnExact'],
+    'C03': (['C03_NoOvershoot', 'C03_ReturnExact', 'C03_ClockIndInv'],
             ['C03_Monotone', 'C03_Progress', 'C03_Terminates']),
     'C04': (['C04_Snapshot'], ['C04_NoCommitWhilePolling']),
     'C05': (['C05_DepsAppliedBeforeInvoke', 'C05_SeqStepsAlone', 'C05_OncePerPhase'],
@@ -449,6 +449,29 @@ def rows_with_units(rep):
     rep.nontrivial.add('rows-with-units')
 
 
+def clock_unbounded(rep, scratch):
+    """Clock.tla: the time rules of run_for with UNBOUNDED integer times and timesteps
+    (three processes).  Apalache discharges the inductive invariant (base case and
+    step) and, from an arbitrary state satisfying it, the consequences and the action
+    properties: the clock never passes the end, never goes back, every iteration moves
+    it or ends the call, the timestep handed out is the length of the interval, an
+    update in flight is applied exactly when the clock reaches the end of its interval.
+    The same invariant is a TLC invariant of Engine.tla (C03_ClockIndInv)."""
+    from vv import apalache
+    runs = [('Init', 'IndInv', 0), ('IndInit', 'IndInv', 1),
+            ('IndInit', 'Consequences', 0), ('IndInit', 'ActionProps', 1)]
+    out = []
+    for init, inv, length in runs:
+        r = apalache.check('Clock', init, inv, length, scratch)
+        tail = r.pop('tail')
+        out.append(r)
+        if r['outcome'] != 'ok':
+            rep.violation({'kind': 'spec', 'config': 'Clock/%s/%s' % (init, inv)},
+                          'Clock.tla: %s does not follow from %s in %d step(s) (Apalache)'
+                          % (inv, init, length), {'apalache_tail': tail})
+    rep.notes['apalache_runs'] = out
+
+
 def branch_flags(rep):
     """C12: an emit flag given at branch level (store_schema at construction, or
     Store.set_emit_values on the running engine) acts on the whole branch: every row
@@ -771,6 +794,8 @@ def check(prop, tier, seed):
         model_check(rep, prop, tier, scratch)
         if prop in ('C01', 'C02', 'C03', 'C04', 'C12'):
             explore(rep, prop, tier, scratch)
+        if prop == 'C03':
+            clock_unbounded(rep, scratch)
         if prop in ('C01', 'C02', 'C03'):
             float_companion(rep, prop, tier, seed)
         scs = gen_scenarios(tier, seed, want_steps=(prop == 'C05'))
